@@ -160,17 +160,81 @@ theorem noErr_scanAr (cfg : Cfg) (tr : Transport) (now arcount : Nat) :
          repeat' noerr_step
          all_goals exact ih _ _)
 
+/-- never `Err(_)`, for computations of the answer phase (writer + ghost log) -/
+structure NoErrP {α : Type} (f : PM α) : Prop where
+  h : ∀ s e, (f s).1 ≠ .err e
+
+theorem noErrP_hdrOp (ev : Ev) {m : M Unit} (hm : NoErr m) : NoErrP (PM.hdrOp ev m) := by
+  constructor
+  intro s e
+  unfold PM.hdrOp
+  have := hm.h s.w
+  generalize m s.w = r at this
+  obtain ⟨o, w'⟩ := r
+  cases o with
+  | ok a => simp
+  | err e' => exact absurd rfl (this e')
+  | panic => simp
+
+theorem noErrP_bind {α β : Type} {x : PM α} {g : α → PM β} (hx : NoErrP x) (hg : ∀ a, NoErrP (g a)) :
+    NoErrP (x >>= g) := by
+  constructor
+  intro s e
+  show (match x s with
+    | (.ok a, s') => g a s'
+    | (.err e, s') => (.err e, s')
+    | (.panic, s') => (.panic, s')).1 ≠ .err e
+  have := hx.h s
+  generalize x s = r at this
+  obtain ⟨o, s'⟩ := r
+  cases o with
+  | ok a => exact (hg a).h s' e
+  | err e' => exact absurd rfl (this e')
+  | panic => simp
+
+/-- the epilogues of `handle_non_axfr_query` turn every `ProcessingError` into a response -/
+theorem noErrP_handleNonAxfrQueryL (z : Zone.Zone) (qname : WName) (qtype : Nat) (tr : Transport) :
+    NoErrP (handleNonAxfrQueryL z qname qtype tr) := by
+  have aa := fun b => noErrP_hdrOp (.aa b) (noErr_setAa b)
+  have rc := fun v => noErrP_hdrOp (.rcode v) (noErr_setRcode v)
+  have tc := fun b => noErrP_hdrOp (.tc b) (noErr_setTc b)
+  have cl := noErrP_hdrOp .clear noErr_clearRrs
+  have ep1 : NoErrP (do PM.setAa false; PM.setRcode (RC "SERVFAIL"); PM.clearRrs : PM Unit) :=
+    noErrP_bind (aa false) (fun _ => noErrP_bind (rc _) (fun _ => cl))
+  have ep2 : NoErrP (do
+      PM.clearRrs
+      if tr = Transport.tcp then do PM.setAa false; PM.setRcode (RC "SERVFAIL")
+      else PM.setTc true : PM Unit) :=
+    noErrP_bind cl (fun _ => by
+      split
+      · exact noErrP_bind (aa false) (fun _ => rc _)
+      · exact tc true)
+  constructor
+  intro s e
+  unfold handleNonAxfrQueryL
+  dsimp only
+  generalize (if qtype = QT "ANY" then answerAny z qname s else answer z qname qtype s) = res
+  obtain ⟨o, s'⟩ := res
+  cases o with
+  | ok u => simp
+  | panic => simp
+  | err pe =>
+    cases pe with
+    | servFail => exact ep1.h s' e
+    | truncation => exact ep2.h s' e
+
 theorem noErr_handleNonAxfrQuery (z : Zone.Zone) (qname : WName) (qtype : Nat) (tr : Transport) :
     NoErr (handleNonAxfrQuery z qname qtype tr) := by
   constructor
   intro s e
   unfold handleNonAxfrQuery
-  dsimp only
-  repeat' split
-  all_goals first
-    | (simp; done)
-    | (refine NoErr.at ?_ _ e
-       repeat' noerr_step)
+  have := (noErrP_handleNonAxfrQueryL z qname qtype tr).h { w := s }
+  generalize handleNonAxfrQueryL z qname qtype tr { w := s } = res at this
+  obtain ⟨o, s'⟩ := res
+  cases o with
+  | ok u => simp
+  | panic => simp
+  | err pe => exact absurd rfl (this pe)
 
 theorem noErr_handleQuery (cfg : Cfg) (question : Option (WName × Nat × Nat)) (tr : Transport) :
     NoErr (handleQuery cfg question tr) := by
